@@ -22,7 +22,7 @@ LEVEL_TEXT = ('The selection function has a finite domain once the 13 action-fla
 LEVEL_NOTE = ('action-flag bits other than 0x8000/0x4000/0x2000 only as all-0 or all-1; look-ups combined with selection '
               'options are not constrained')
 RULE = ('tuples (severity 0..255, flags in 8 combos of {0x8000,0x4000,0x2000} x {other bits 0, other bits 1}, switches E s N H '
-        't O in 2^6, group subset); look-up clause: 4 look-up kinds x 256 x 16 with no option. Non-trivial: every tuple '
+        't O in 2^6, group subset); look-up clause: 5 look-up kinds x 256 x 16 with no option. Non-trivial: every tuple '
         '(disjoint by construction, counted not hashed).')
 ASSUMPTIONS = ['Config attribute names (every_pel, serviceable, non_serviceable, hidden, critSysTerm, only, severities) are the '
                'configuration interface of considerPEL']
@@ -138,7 +138,7 @@ def run_chunk(chunk):
         res.extra['selected_tuples'] = n_sel
         res.samples.append({'sev': chunk['lo'], 'flags': FLAGSETS[5], 'sw': [0, 1, 0, 0, 0, 1], 'groups': list(subs[3])})
     elif k == 'lookup':
-        for lookup in ('plid', 'src', 'bmcID', 'pelID'):
+        for lookup in ('plid', 'src', 'bmcID', 'pelID', 'srcExcludeFile'):
             for sev in range(256):
                 for flags in FLAGSETS:
                     case = {'sev': sev, 'flags': flags, 'sw': [0] * 6, 'groups': [], 'lookup': lookup}
